@@ -89,6 +89,7 @@ def witnesses():
                                                        '    permissions:\n      foo: read\n'))})
     add('matrix-exclude-unknown-keys', {WF + 'w.yml': HEAD + 'jobs:\n  a:\n    runs-on: ubuntu-latest\n    strategy:\n      matrix:\n        x: [1]\n        y: [2]\n        z: [3]\n'
                                         '        exclude:\n          - {p: 1, q: 2, r: 3}\n    steps:\n      - run: echo\n'})
+    add('json-literal-keys-differ-in-case', {WF + 'w.yml': wf(job('a', ["run: echo ${{ fromJSON('{\"A\":{\"x\":1},\"a\":1,\"B\":[1],\"b\":{\"y\":2}}').a.x }} ${{ fromJSON('{\"K\":1,\"k\":{\"z\":1}}').k.z }}"]))})
     add('dispatch-inputs', {WF + 'w.yml': 'on:\n  workflow_dispatch:\n    inputs:\n' + ''.join('      i%s:\n        type: choice\n        default: zz\n        options: [a]\n' % c for c in 'dcba') +
                             'jobs:\n  a:\n    runs-on: ubuntu-latest\n    steps:\n      - run: echo ${{ inputs.nope }}\n'})
     # multi-file witnesses
@@ -162,6 +163,12 @@ def run(ck, tier):
     cases = []
     for i, w in enumerate(ws, 1):
         cases.append(dict(w, id=i, reps=reps, cwd='repo', single=False))
+    # histories: the SAME Linter instance used for several runs must answer the same every time
+    n0 = len(cases)
+    for w in ws:
+        if w['name'].startswith('multi-file') or 'broken' in w['name'] or 'required' in w['name']:
+            cases.append(dict(w, id=len(cases) + 1, name='reused-linter:' + w['name'], reps=6 if tier == 'quick' else 24, cwd='repo',
+                              single=False, reuse=True))
     vplib.write_jsonl(os.path.join(sd, 'cases.jsonl'), cases)
     vplib.run_harness(['det-run', os.path.join(sd, 'cases.jsonl'), os.path.join(sd, 'out.jsonl')], timeout=3000)
     res = vplib.read_jsonl(os.path.join(sd, 'out.jsonl'))
